@@ -564,7 +564,7 @@ class Task(object):
 
         if not state:
             states = rps.FINAL
-        if not isinstance(state, list):
+        elif not isinstance(state, list):
             states = [state]
         else:
             states = state
@@ -582,7 +582,7 @@ class Task(object):
             return self.state
 
         start_wait = time.time()
-        while self.state not in states:
+        while self.state not in states and self.state not in rps.FINAL:
 
             time.sleep(0.1)
 
